@@ -92,13 +92,17 @@ func (s *Set[T]) SortMerge(lt cmp.LessThan[T]) {
 func (s *Set[T]) forceSetupOrdered() {
 	fun.Invariant.Ok(s.list == nil)
 	s.list = &List[T]{}
+	// index every value by its order element, as AddCheck does:
+	// DeleteCheck unlinks the element it finds in the hash. The index
+	// is rebuilt rather than updated in place: the old map may still
+	// be read by iterators handed out before the set became ordered.
+	hash := make(Map[T, *Element[T]], len(s.hash))
 	for item := range s.hash {
-		// index every value by its order element, as AddCheck does:
-		// DeleteCheck unlinks the element it finds in the hash.
 		elem := NewElement(item)
 		s.list.Back().Append(elem)
-		s.hash[item] = elem
+		hash[item] = elem
 	}
+	s.hash = hash
 }
 
 // WithLock configures the Set to synchronize operations with this
